@@ -636,12 +636,21 @@ func (s *Module) AddContractStorageItems(kvs []storage.KeyValue) error {
 	for _, kv := range kvs {
 		batch[string(append([]byte{byte(prefix)}, kv.Key...))] = kv.Value
 	}
-	_ = s.dao.Store.PutChangeSet(nil, batch)
+	// Contract storage items, MPT nodes and the checkpoint of this batch must reach the
+	// underlying store at once: it can be flushed at any moment (persist timer) and the
+	// checkpoint is the only thing the process can be resumed from after restart.
+	var cache = s.dao.GetPrivate()
+	_ = cache.Store.PutChangeSet(nil, batch)
 	mptBatch := mpt.MapToMPTBatch(batch)
-	if _, err := s.localTrie.PutBatch(mptBatch); err != nil {
+	s.localTrie.Store = cache.Store
+	_, err := s.localTrie.PutBatch(mptBatch)
+	if err == nil {
+		s.localTrie.Flush(s.syncPoint)
+	}
+	s.localTrie.Store = s.dao.Store
+	if err != nil {
 		return fmt.Errorf("failed to apply MPT batch at %d: %w", s.syncPoint, err)
 	}
-	s.localTrie.Flush(s.syncPoint)
 	s.lastStoredKey = kvs[len(kvs)-1].Key
 	computedRoot := s.localTrie.StateRoot()
 	w := transaction.Witness{}
@@ -654,7 +663,10 @@ func (s *Module) AddContractStorageItems(kvs []storage.KeyValue) error {
 		LastStoredKey:    kvs[len(kvs)-1].Key,
 		Witness:          w,
 	}
-	s.dao.PutStateSyncCheckpoint(ckpt)
+	cache.PutStateSyncCheckpoint(ckpt)
+	if _, err := cache.Persist(); err != nil {
+		return fmt.Errorf("failed to store checkpoint metadata: %w", err)
+	}
 	if _, err := s.dao.Store.PersistSync(); err != nil {
 		return fmt.Errorf("failed to persist checkpoint metadata: %w", err)
 	}
